@@ -1018,7 +1018,7 @@ func RunProxyWrites(seed int64) (runs []PxWriteRun, viols []drv.Violation, err e
 						}
 					}
 					return n == len(blobs)
-				}, 10*time.Second)
+				}, 40*time.Second)
 				for i, data := range blobs {
 					obj, ok := hb.st.Get(hb.path(cache.CAS, fmtw.Sha(data), mode))
 					if !ok {
